@@ -150,7 +150,7 @@ def make_method(fl, method, nsym, tsym, cmp, reconfigure=False):
     return fl.Threshold(cmp, tsym)
 
 
-def ob_method(method, N, loaded, enabled, cmp=None, rounds=1, zero_disabled=False, label="", mode="R", reconfigure=False):
+def ob_method(method, N, loaded, enabled, cmp=None, rounds=1, zero_disabled=False, label="", mode="R", reconfigure=False, prop=None):
     """mode "F": degrees and thresholds are IEEE doubles (bit-exact comparisons and subtractions): an ordering key that is
     only equivalent over the reals (e.g. 1 - d instead of -d) shows up here"""
     def run(ob):
@@ -202,7 +202,7 @@ def ob_method(method, N, loaded, enabled, cmp=None, rounds=1, zero_disabled=Fals
                               "    if bad: break",
                               f"verdict(bad is not None, '{method} D=%r n={v['n']} t=%r: %s' % (D, {lit(v['t'])}, bad))"])
 
-        rp = replay_fn(PROPERTY, label, rbody, key=None)
+        rp = replay_fn(prop or PROPERTY, label, rbody, key=None)
 
         def body():
             box = {"r": 0}
